@@ -9,6 +9,8 @@
    line: xtext TAB world TAB env TAB top TAB plist TAB force TAB text TAB rawdeps [TAB tfix,jfix,sfix,cfix]
      text    = the text of the table file (level A is done by the model: Model/ExpandText.v)
    answer: ok TAB text (the text written, white space included) | outside TAB reason | err TAB kind
+   line: xtextopt TAB world TAB env TAB top TAB plist TAB force TAB text TAB rawdeps TAB expandVersions,addExactBlock
+     the same with the two switches of app.expandTableFile / eups expandtable -N --noExact (Model/ExpandOpt.v)
    line: unexpand TAB text
    answer: ok TAB text (the text without the lines an earlier expansion added: Model/ExpandRe.v)
    line: classify TAB text [TAB tfix]
@@ -113,6 +115,23 @@ let handle (f : Stdlib.String.t array) : Stdlib.String.t =
     (* the repaired code drops the lines of an earlier expansion while it reads the table (Model/ExpandRe.v);
        the text model of the pinned tree (tfix = false) does not *)
     (match (if tfix then reexpand_text_gen else expand_text_gen) tfix jfix sfix cfix w e top plist force rd text with
+     | Inside out -> "ok\t" ^ enc_str out
+     | Outside x -> "outside\t" ^ outside_name x
+     | Raises k -> "err\t" ^ err_name k)
+  | "xtextopt" ->
+    (* the expansion with the two switches (Model/ExpandOpt.v), the repaired code: field 8 = expandVersions,addExactBlock *)
+    let w = Stdlib.List.map dec_product (split_sep '|' f.(1)) in
+    let e = dec_env f.(2) in
+    let top = dec_str f.(3) in
+    let plist = dec_env f.(4) in
+    let force = bool_of_field f.(5) in
+    let text = dec_str f.(6) in
+    let rd = Stdlib.List.map dec_raw (split_sep '|' f.(7)) in
+    let (ev, ab) =
+      (match Stdlib.String.split_on_char ',' f.(8) with
+       | [a; b] -> (bool_of_field a, bool_of_field b)
+       | _ -> failwith "bad switches") in
+    (match reexpand_text_opt ev ab true true true true w e top plist force rd text with
      | Inside out -> "ok\t" ^ enc_str out
      | Outside x -> "outside\t" ^ outside_name x
      | Raises k -> "err\t" ^ err_name k)
